@@ -200,3 +200,23 @@ CHECKS["C17"] = {"pkg": "gcsim", "test": "TestC17", "level": "fault_enumeration"
     "assumptions": ["fake container runtimes speaking the Docker Engine HTTP API and the CRI RuntimeService gRPC API; the veth collector (netlink) is not exercised",
                     "NOTREADY sandbox whose pod still has running/waiting containers counts as alive (the code's own rule)"],
     "floors": {"alive_dead_and_erroring": 0.2, "containerd_mode": 0.15}}
+
+CHECKS["C18"] = {"pkg": "robust", "test": "(TestC18|FuzzC18.*)", "level": "exploration", "hang_is_violation": True,
+    "extra_builds": [{"pkg": "cmd/fakecni", "out": "fakecni"}],
+    "quick": {"checks": 2500, "timeout": 1200},
+    "thorough": {"checks": 64000, "shards": 16, "timeout": 3000,
+                 "fuzz": [{"target": "FuzzC18Config", "time": "40s"}, {"target": "FuzzC18PodArgs", "time": "40s"}, {"target": "FuzzC18HTTP", "time": "40s"},
+                          {"target": "FuzzC18CNI", "time": "30s"}, {"target": "FuzzC18GalaxyConf", "time": "20s"}, {"target": "FuzzC18Parsers", "time": "30s"}]},
+    "rule": "Surfaces, each as a rapid generator (valid seeds from docs/tests, hostile constants such as 255.255.255.255, 0.0.0.0, ~, /0, "
+            "deep nesting, random bytes, seed mutations) and as a native fuzz target with the oracle inside: floatingip configuration text -> "
+            "reload -> allocation; pod objects with arbitrary args/policy/pool annotations, owners, names, phases -> Filter, Bind, Preempt, "
+            "UpdatePod, DeletePod, unbind, resync, pod-IP sync; GET/POST /v1/ip and POST/GET/DELETE /v1/pool queries and bodies through the "
+            "real routes; CNI request bytes and networks annotations through the real /cni handler; galaxy JSON configuration -> "
+            "checkNetworkConf -> ADD/DEL; generated valid NetworkPolicies -> full syncs and pod/policy events on strict fakes; "
+            "ParseIPRange, IPNet/IPRange JSON, ParseCIDR, ParseIPv4Mask, annotation and args parsers. Oracle: the call returns a value or an "
+            "error (no panic, 30 s watchdog), a benign follow-up request on the same instance answers, tables stay disjoint. quick also "
+            "replays the fuzz seed corpus. Non-trivial = the input passed the first decoder (reached logic). Ranges of more than 2^16 "
+            "addresses are outside the claimed domain.",
+    "assumptions": ["range walks over more than 2^16 addresses are not generated (legitimately slow, not claimed)",
+                    "the scheduler does not bind a pod that is already assigned; unknown pods in CNI requests resolve (the daemon otherwise polls 5 s by design)"],
+    "floors": {}}
